@@ -158,12 +158,40 @@ def expected_elements(g, fl, i, j):
     return v[i:j] if isinstance(v, list) else None
 
 
+TARGETED_PROGS = [
+    'try:\n    pass\nexcept A:\n    s = "déjà vu"  # ü\nexcept B:\n    t = "naïve"\nfinally:\n    u = "é"\n',
+    'def first():\n    pass\n# explains second()\ndef second():\n    pass\n',
+    'def first():\n    pass\n\n# explains second()\ndef second():\n    pass\nx = 1\n',
+    'class K:\n    def a(self): pass\n    # about b\n    def b(self): pass\n\n    # about c\n    c = 1\n',
+    'match x:\n    case 1:\n        s = "é"  # ö\n    case _:\n        t = "ü"\n',
+    'import a\n# about f\ndef f(): pass\n\n\n# about g\ndef g(): pass\nx = 1\n',
+    'if a:\n    class C: pass\n    # about d\n    d = "ñ"\nelse:\n    e = "ß"  # ä\n',
+]
+
+
+def targeted_cases():
+    """every (start, stop) of every statement-like list field of the targeted programs, with the default and two explicit trailing-trivia options"""
+    import fst
+    for src in TARGETED_PROGS:
+        probe = fst.FST(src, 'exec')
+        for h in probe.walk(True):
+            for fl in ('body', 'handlers', 'cases', 'orelse', 'finalbody'):
+                v = getattr(h.a, fl, None)
+                if isinstance(v, list) and v and isinstance(v[0], ast.AST):
+                    for i in range(len(v)):
+                        for j in range(i + 1, len(v) + 1):
+                            for opts in ({}, {'trivia': ('block', 'line+1')}, {'trivia': (False, 'block+2')}):
+                                yield {'src': src, 'path': probe.child_path(h), 'field': fl, 'i': i, 'j': j, 'opts': dict(opts)}
+
+
 def stage_oracle(ctx: Ctx, progs, tracer):
     import fst
     rng = ctx.rng
     refusals = collections.Counter()
-    for it in range(ctx.scale(500, 9000)):
-        src = rng.choice(progs)
+    forced = list(targeted_cases())
+    for it in range(len(forced) + ctx.scale(500, 9000)):
+        fc = forced[it] if it < len(forced) else None
+        src = fc['src'] if fc else rng.choice(progs)
         root = fst.FST(src, 'exec')
         nodes = [f for f in root.walk(True) if f.parent is not None and not any(isinstance(p.a, (ast.JoinedStr, ast.FormattedValue)) for p in parents(f))]
         if not nodes:
@@ -171,13 +199,17 @@ def stage_oracle(ctx: Ctx, progs, tracer):
         f = rng.choice(nodes)
         kind = rng.choice(['copy', 'get_slice', 'get_slice', 'get_one'])
         opts = {}
-        if rng.random() < 0.45:
+        if fc:
+            f = root.child_from_path(fc['path'])
+            kind = 'get_slice'
+            opts = dict(fc['opts'])
+        elif rng.random() < 0.45:
             opts['trivia'] = rng.choice([False, True, 'all', 'block', 'line', (False, False), ('all', 'line'), ('block', 'all'), (True, 'block+1'), ('all+', True)])
-        if rng.random() < 0.2:
+        if not fc and rng.random() < 0.2:
             opts['pars'] = rng.choice([True, False, 'auto'])
-        if rng.random() < 0.15:
+        if not fc and rng.random() < 0.15:
             opts['norm'] = rng.choice([True, False])
-        if rng.random() < 0.15:
+        if not fc and rng.random() < 0.15:
             opts['docstr'] = rng.choice([True, False, 'strict'])
         before_src = root.src
         before_dump = ast.dump(root.a, include_attributes=True)
@@ -200,6 +232,9 @@ def stage_oracle(ctx: Ctx, progs, tracer):
                     n = len(getattr(g, virt))
                 i = rng.randrange(0, n)
                 j = i + 1 if kind == 'get_one' else rng.randrange(i, n + 1)
+                if fc:
+                    g, fl, i, j = f, fc['field'], fc['i'], fc['j']
+                    n = len(getattr(g.a, fl))
                 rec.update(holder=repr(g), field=fl, start=i, stop=j)
                 piece = g.get(i, fl, **opts) if kind == 'get_one' else g.get_slice(i, j, fl, **opts)
                 expect = expected_elements(g, fl, i, j)
@@ -237,9 +272,19 @@ def stage_oracle(ctx: Ctx, progs, tracer):
         if isinstance(piece.a, ast.Tuple) and any(isinstance(e, ast.Slice) for e in piece.a.elts) and d:
             d = None   # a tuple of subscript slices exists only inside a subscript; verify() above is the check
         if special or (kind == 'get_slice' and i == j):
-            # slice holders that are not Python nodes (or degenerate one-operand BoolOp / Compare slices) have no CPython parse
+            # slice holders that are not Python nodes (or degenerate one-operand BoolOp / Compare slices) have no CPython parse;
+            # a non-empty special holder must still agree with its own source in its own parse mode (verify) and span all of it
             ctx.dist['piece:special-holder'] = ctx.dist.get('piece:special-holder', 0) + 1
-            d = None
+            holder_bad = None
+            if type(piece.a).__name__.startswith('_') and not (kind == 'get_slice' and i == j):
+                if d and d[0].startswith('verify raised'):
+                    # alias holders re-parse through the unparenthesized import form, which cannot carry line breaks or comments (same exemption as C05)
+                    holder_bad = None if type(piece.a).__name__ == '_aliases' and ('\n' in piece.src or '#' in piece.src) else d
+                else:
+                    pl = piece.lines
+                    if piece.loc is not None and tuple(piece.loc) != (0, 0, len(pl) - 1, len(pl[-1])):
+                        holder_bad = [f'holder location {tuple(piece.loc)} does not span its source (0, 0, {len(pl) - 1}, {len(pl[-1])})']
+            d = holder_bad
         if d and opts.get('pars') is not False:
             ctx.violation(f'piece-not-standalone|{kind}|{type(piece.a).__name__}', 'the returned tree does not parse on its own to itself', {**rec, 'diffs': d})
             continue
